@@ -67,6 +67,12 @@ prop("C10", stems=["Util"], props=["Props/C10.v"], falsify="falsify_C10", expect
      technique="Coq proof (field/ring with pivot abstraction, sqrt_sqrt) over instances regenerated from source by a translator",
      explanation="numerical-linear-algebra identities for all matrix entries of each instance size")
 
+prop("C15", stems=["Rdd2", "Loglinear", "SO3Quat"], props=["Props/C15.v"], falsify="falsify_C15",
+     level_text="Kernel-checked on the regenerated controllers: the rate loop's integrator output stays in +-i_max for every call AND along arbitrarily long runs from any in-box state with arbitrary inputs (induction over the step list), its filter coefficient lies in (0,1) when dt*f_cut > 0, e1 = omega_r - omega, M = kp e + ki i + kd de and the low-pass derivative law; acro stick map is linear with the stated (double) slopes and bounded for sticks in [-1,1]; velocity-mode input keeps the yaw set-point in [-pi, pi] (IEEE-remainder lemma over Flocq's ZnearestE + interval bound of the double 2*pi), never places the position set-point farther than 2 m from the vehicle, and a reset puts it on the vehicle; attitude_control = gains times SO3Quat.log(q^-1 q_r). Partial: 'zero exactly when the attitudes are the same rotation' and 'the commanded rotation reaches the reference' depend on C03 (log) and are covered by the numeric search only, as are the position loop's 30%-of-weight clamp (an internal quantity, not an output), the height-integrator limit, and the log-linear variants.",
+     level_note=GEN_NOTE + "Adds Flocq (ZnearestE) and Interval (PI bound) to the trusted libraries for the yaw-range theorem.",
+     technique="Coq proof (SSA slicing, lra/nra, Flocq rounding lemma, interval, induction over step lists) over a model regenerated from source",
+     explanation="controller bounds for all gains/limits/states/inputs and all run lengths")
+
 prop("C16", stems=["Quadrotor"], props=["Props/C16.v"], falsify="falsify_C16",
      level_text="Kernel-checked theorems over the regenerated real-number model of quadrotor.derive_model(): q.qdot=0, quaternion and position kinematics, hover equilibrium, free-fall accelerometer, rotor-sum wrench (Euler and Newton equations), motor first-order law, translation and yaw equivariance, for ALL states, inputs and parameter vectors (parameters are symbolic). Not proved: the exponential closed-form motor response (only the ODE right-hand side), drag-on branch of the force sum.",
      level_note=GEN_NOTE + "Numeric search on the real functions (harness/falsify_C16.py) supports replay generation only.",
